@@ -14,7 +14,7 @@ use crate::model::Commodity;
 use crate::tackler;
 use jiff::fmt::strtime::BrokenDownTime;
 use jiff::tz::TimeZone;
-use rust_decimal::Decimal;
+use rust_decimal::{Decimal, RoundingStrategy};
 use std::fmt::{Debug, Display};
 use std::path::{Path, PathBuf};
 use std::sync::Arc;
@@ -527,6 +527,32 @@ impl Scale {
     }
     pub fn get_precision(&self, d: &Decimal) -> usize {
         cmp::max(cmp::min(d.scale(), self.max), self.min) as usize
+    }
+
+    /// Amount as report text: rounded half away from zero to the precision of
+    /// this scale, written with exactly that many decimals.
+    ///
+    /// The decimals are padded by hand: `format!("{:.prec$}", decimal)` has a
+    /// fixed 32 byte buffer and panics for long figures (e.g. `min = 28` and
+    /// any amount >= 1000).
+    pub fn format(&self, d: &Decimal) -> String {
+        let prec = self.get_precision(d);
+        let rounded =
+            d.round_dp_with_strategy(prec as u32, RoundingStrategy::MidpointAwayFromZero);
+        Self::with_decimals(&rounded, prec)
+    }
+
+    /// `d` (which has at most `prec` decimals) written with exactly `prec` decimals
+    pub(crate) fn with_decimals(d: &Decimal, prec: usize) -> String {
+        let mut txt = d.to_string();
+        let scale = d.scale() as usize;
+        if scale < prec {
+            if scale == 0 {
+                txt.push('.');
+            }
+            txt.push_str(&"0".repeat(prec - scale));
+        }
+        txt
     }
 }
 
